@@ -5,6 +5,7 @@ set -u
 HERE="$(cd "$(dirname "$0")" && pwd)"
 REPO="${MATHCAT_REPO:-/repo}"
 cd "$REPO" || exit 2
+mkdir -p "$REPO/target"
 export CARGO_NET_OFFLINE=true
 rm -f "$REPO/target/nextest/pb/junit.xml"
 cargo nextest run --workspace --no-fail-fast --tool-config-file "pb:$HERE/nextest.toml" --profile pb --test-threads 8 --offline >"$REPO/target/verif_baseline.log" 2>&1
